@@ -58,6 +58,18 @@ def coherent_monitor(prefix="pipe"):
             a = cur["assignments"]
             if ev.step in ("resample", "mutate") and (a is None or len(a) != len(cur["u"])):
                 p.violate(f"{prefix}:{ev.step}:assignments", f"iteration {ev.iter} after {ev.step}: assignments has {None if a is None else len(a)} entries for {len(cur['u'])} particles", iter=ev.iter)
+        if ev.step == "resample" and cur["u"] is not None:
+            memo["active"] = {k: (None if cur[k] is None else np.array(cur[k], copy=True)) for k in ("u", "x", "logl", "assignments", "blobs")}
+        if ev.step == "mutate" and memo.get("active") is not None:
+            # the kernel must be started from exactly the resampled set (whole records, their own labels)
+            for kc in ev.info.get("kernel_calls", [])[:1]:
+                act = memo["active"]
+                for k in ("u", "x", "logl", "assignments"):
+                    if act[k] is not None and kc.get(k) is not None and not np.array_equal(np.asarray(kc[k]), act[k]):
+                        p.violate(f"{prefix}:mutate:kernel-input:{k}", f"iteration {ev.iter}: the mutation kernel was started with a '{k}' array that is not the resampled active set", iter=ev.iter)
+                        break
+                if want_blobs and act["blobs"] is not None and (kc.get("blobs") is None or not np.array_equal(np.asarray(kc["blobs"]), act["blobs"])):
+                    p.violate(f"{prefix}:mutate:kernel-input:blobs", f"iteration {ev.iter}: the mutation kernel was started with blobs that are not those of the resampled active set", iter=ev.iter)
         if ev.step == "resample" and cur["u"] is not None and float(cur["beta"]) > 0.0 and p.state._history["u"]:
             # the active set is drawn from the CURRENT pool: every resampled particle must be a row of the stored history
             h = p.state._history
